@@ -382,3 +382,84 @@ func root() {}`)
 		t.Fatalf("a helper whose only use was inlined must be dropped from the variant")
 	}
 }
+
+func TestInlineHoistsHelperArgumentOfACall(t *testing.T) {
+	// case E: a multi-statement helper as a direct argument of the call on the right-hand side
+	res, _ := inlined(t, `package p
+type inst struct{ toks []int }
+func isSorted(xs ...int) bool { return len(xs) < 2 } // variadic: never inlined
+func sortInts(xs ...int)      {}
+func sortedToks(i inst) []int {
+	t := i.toks
+	if !isSorted(t...) {
+		sortInts(t...)
+	}
+	return t
+}
+func root(m map[string]inst) map[string][][]int {
+	out := map[string][][]int{}
+	for k, i := range m {
+		out[k] = append(out[k], sortedToks(i))
+	}
+	return out
+}`)
+	if res == nil {
+		t.Fatal("nothing inlined")
+	}
+	fn := FindFunc(res.Pkg, "root")
+	sorts := fn.CallsTo(true, "p", "sortInts")
+	if len(sorts) != 1 {
+		t.Fatalf("expected the helper's sort call inside root after hoisting, found %d", len(sorts))
+	}
+	if FindFunc(res.Pkg, "sortedToks") != nil {
+		t.Fatalf("the fully inlined helper must be dropped")
+	}
+	// an impure sibling operand blocks the hoist
+	res2, _ := inlined(t, `package p
+func h(x int) int {
+	if x > 0 {
+		return x
+	}
+	return -x
+}
+var n int
+func g(xs ...int) int { n++; return n } // variadic: never inlined, has a side effect
+func pair(a, b int) int { return a + b }
+func root() int {
+	v := pair(g(), h(2))
+	return v
+}`)
+	if res2 != nil {
+		if fn := FindFunc(res2.Pkg, "root"); fn != nil && len(fn.CallsTo(true, "p", "h")) == 0 {
+			t.Fatalf("h must not be hoisted over the call of g")
+		}
+	}
+}
+
+func TestBinderTreatsLenOfStringAsEmptiness(t *testing.T) {
+	pkg := load(t, `package p
+func f(s string) int {
+	if len(s) == 0 {
+		return 0
+	}
+	return 1
+}`)
+	fn := FindFunc(pkg, "f")
+	g := fn.Graph()
+	var zero Loc
+	for _, b := range g.Blocks {
+		if r := ReturnOf(b); r != nil && fn.Canon(r.Results[0]) == "0" {
+			zero = g.Locate(r)
+		}
+	}
+	for _, row := range []struct {
+		v    string
+		want bool
+	}{{"T", true}, {"F", false}} {
+		bd := &Binder{Fn: fn, Eq: map[string]string{`p0|""`: "empty"}, Row: Row{"empty": row.v}}
+		ex := g.Exec(g.EntryLoc(), []Loc{zero}, bd.Leaf, ExecOpts{})
+		if ex.Must[0] != row.want || ex.May[0] != row.want {
+			t.Fatalf("empty=%s: return 0 may=%v must=%v, want %v", row.v, ex.May[0], ex.Must[0], row.want)
+		}
+	}
+}
